@@ -77,7 +77,8 @@ fn main() {
     let run = move || -> Report {
         match engine.as_str() {
         "c12-inproc" => {
-            let cases = 20_000 * scale;
+            // quick 3.2e5 cases, thorough 9.6e6 (16 shards)
+            let cases = if quick { 20_000 } else { 600_000 };
             sharded(n, move |s| c12::run_inproc(seed, s, cases))
         }
         "c12-live" => c12::run_live(seed, clients, 5_000 * scale),
